@@ -16,6 +16,7 @@ MAX_REBUILDS = 4
 def norm_msg(s: str) -> str:
     s = re.sub(r"0x[0-9a-fA-F]+", "ADDR", s)
     s = re.sub(r"\bu\d+(_?\w*)", "U", s)
+    s = re.sub(r"\b\w+\.U\b", "U", s)  # module prefix of a generated class
     s = re.sub(r"'[^']*'", "'Q'", s)
     s = re.sub(r'"[^"]*"', '"Q"', s)
     s = re.sub(r"-?\d+(\.\d+)?(e[+-]?\d+)?", "N", s)
